@@ -285,3 +285,55 @@ split_state = function(
 split_state.vararg = 'filters'
 split_state.assume_axioms = CONV_AX
 split_state.locals = {'flat_states': Groups, 'predicates': Preds}
+
+# ---- variablelib.split_flat_state: same first-match partition, but a leaf matched by no filter is an error ------------
+VL = 'flax/nnx/variablelib.py'
+preds_of = UFn('filters_to_predicates', [Filters], Preds, 'filterlib.filters_to_predicates(filters): one predicate per filter, in order (its `...`-must-be-last check may raise)')
+
+
+def _split_flat_inv(groups):
+  E = f'{groups}[j][q]'
+  return [
+    f'len({groups}) == len(filters)',
+    f"forall(Int, Int, lambda j, q: implies(0 <= j and j < len(filters) and 0 <= q and q < len({groups}[j]), "
+    f"holds(denotes(filters[j]), {E}.path, {E}.value)))",
+    f"forall(Int, Int, Int, lambda j, q, jj: implies(0 <= j and j < len(filters) and 0 <= q and q < len({groups}[j]) and 0 <= jj and jj < j, "
+    f"not holds(denotes(filters[jj]), {E}.path, {E}.value)))",
+  ]
+
+
+PRED_IS = 'len(predicates) == len(filters) and forall(Int, lambda i: implies(0 <= i and i < len(filters), predicates[i] == denotes(filters[i])))'
+split_flat_state = function(
+  VL + '::split_flat_state', params=[('flat_state', Items), ('filters', Filters)], returns=Groups,
+  requires=[NV],
+  raises_any=('ValueError',),     # a leaf that no filter matches (and the `...`-must-be-last check of filters_to_predicates)
+  ensures=_split_flat_inv('result'),
+  invariants={
+    0: [PRED_IS] + _split_flat_inv('flat_states'),
+    1: [PRED_IS] + _split_flat_inv('flat_states') + ['forall(Int, lambda jj: implies(0 <= jj and jj < _k, not holds(denotes(filters[jj]), path, value)))'],
+  },
+  bindings=dict(SPB, **{'filterlib.filters_to_predicates': Handler('filterlib.filters_to_predicates', lambda ex, a, kw: _ftp(ex, a), 'assumed: returns to_predicate(f) for every filter, in order (or raises)')}),
+  props=('C14',))
+split_flat_state.assume_axioms = CONV_AX
+split_flat_state.locals = {'flat_states': Groups, 'predicates': Preds}
+
+
+def _ftp(ex, a):
+  """filters_to_predicates(filters) == tuple(map(to_predicate, filters)) (after its own validity check)"""
+  return ex.call_value(GLOBAL_BINDINGS_['tuple'], [ex.call_value(GLOBAL_BINDINGS_['map'], [to_predicate, a[0]], {})], {})
+
+
+from pyvc.symexec import GLOBAL_BINDINGS as GLOBAL_BINDINGS_  # noqa: E402
+
+# ---- filterlib.filters_to_predicates: one predicate per filter, in order; `...` / True anywhere but at the end (followed by
+# ---- something else) is rejected ---------------------------------------------------------------------------------------
+CATCHALL = lambda i: f"(filters[{i}] == ... or filters[{i}] == True)"
+filters_to_predicates = function(
+  F + '::filters_to_predicates', params=[('filters', Filters)], returns=Preds,
+  requires=[NV],
+  raises={'ValueError': f"exists(Int, Int, lambda i, j: 0 <= i and i < j and j < len(filters) and {CATCHALL('i')} and not {CATCHALL('j')})"},
+  ensures=['len(result) == len(filters)', 'forall(Int, lambda i: implies(0 <= i and i < len(filters), result[i] == denotes(filters[i])))'],
+  invariants={0: [f"forall(Int, Int, lambda i, j: implies(0 <= i and i < _k and i < j and j < len(filters) and {CATCHALL('i')}, {CATCHALL('j')}))"]},
+  bindings=dict(SPB, to_predicate=to_predicate), props=('C14',))
+filters_to_predicates.assume_axioms = CONV_AX
+filters_to_predicates.locals = {'remaining_filters': Filters}
